@@ -71,7 +71,8 @@ def _marker(num_sectors, typ):
 
 def build_hosted(states, slots, grain=8, ngte=512, capacity=None, window_at=0, total_grains=None, footer=False,
                  compressed=False, descriptor=None, stride=None, data_base=None, table_base=None, elide_empty_gt=True,
-                 layer=1, gt_order="asc", gd_entries=None, nslots=None, label="kdmv", name=None, zero_flag=True):
+                 layer=1, gt_order="asc", gd_entries=None, nslots=None, label="kdmv", name=None, zero_flag=True, explicit=None,
+                 embedded_lba=True):
     W = len(states)
     total = total_grains or (window_at + W)
     if capacity is None:
@@ -129,9 +130,9 @@ def build_hosted(states, slots, grain=8, ngte=512, capacity=None, window_at=0, t
             g, st = inv[p]
             lay = layer_of(st, layer)
             if compressed:
-                body = pattern.span(lay, g * grain * S, grain * S)
+                body = (explicit or {}).get(g) or pattern.span(lay, g * grain * S, grain * S)
                 z = zlib.compress(body, 6)
-                rec = struct.pack("<QI", g * grain, len(z)) + z
+                rec = (struct.pack("<QI", g * grain, len(z)) if embedded_lba else struct.pack("<I", len(z))) + z
                 rec_sectors = (len(rec) + S - 1) // S
                 if rec_sectors > stride:
                     raise ValueError(f"compressed record of {rec_sectors} sectors does not fit stride {stride}")
@@ -139,6 +140,8 @@ def build_hosted(states, slots, grain=8, ngte=512, capacity=None, window_at=0, t
                 if rec_sectors < stride:
                     img.put_pattern((sec + rec_sectors) * S, (stride - rec_sectors) * S, pattern.SLACK,
                                     (sec + rec_sectors) * S)
+            elif explicit and g in explicit:
+                img.put(sec * S, explicit[g], meta=False)
             else:
                 img.put_pattern(sec * S, grain * S, lay, g * grain * S)
                 if stride > grain:
@@ -158,7 +161,7 @@ def build_hosted(states, slots, grain=8, ngte=512, capacity=None, window_at=0, t
     img.put(gd_sector * S, struct.pack(f"<{ngd}I", *gd).ljust(gd_sectors * S, b"\0"))
     for t in range(min(ngd, 8)):
         img.field(f"gd[{t}]", gd_sector * S + 4 * t, 4, "<", "table")
-    flags = 1 | (4 if zero_flag else 0) | (0x30000 if compressed else 0)
+    flags = 1 | (4 if zero_flag else 0) | ((0x30000 if embedded_lba else 0x10000) if compressed else 0)
     version = 3 if compressed else 1
     comp = 1 if compressed else 0
     overhead = d0
@@ -313,7 +316,21 @@ def model_flat(nsec, layer=1):
     return RawDisk(pattern.sectors(layer, 0, nsec))
 
 
-def model(states, grain, capacity=None, window_at=0, total_grains=None, layer=1, parent=None):
+def tuned_grain(grain_sectors, target_len, seed=0):
+    """Grain content (incompressible prefix + constant fill) whose zlib stream is exactly target_len bytes long, or None."""
+    import hashlib
+
+    n = grain_sectors * S
+    rnd = b"".join(hashlib.sha256(b"tuned/%d/%d" % (seed, i)).digest() for i in range(n // 32 + 1))
+    lo, hi = 0, n
+    for k in range(max(0, target_len - 60), min(n, target_len + 8)):
+        body = rnd[:k] + bytes([0x41 + seed % 20]) * (n - k)
+        if len(zlib.compress(body, 6)) == target_len:
+            return body
+    return None
+
+
+def model(states, grain, capacity=None, window_at=0, total_grains=None, layer=1, parent=None, explicit=None):
     W = len(states)
     total = total_grains or (window_at + W)
     units = [HOLE] * total if total <= 200000 else {}
@@ -329,7 +346,7 @@ def model(states, grain, capacity=None, window_at=0, total_grains=None, layer=1,
         else:
             units[g] = HOLE
     size = (capacity if capacity is not None else total * grain) * S
-    return GuestDisk(size, grain * S, units, layer, parent, unit_layers=layers)
+    return GuestDisk(size, grain * S, units, layer, parent, unit_layers=layers, unit_bytes=explicit)
 
 
 # ---- independent mini-decoders --------------------------------------------------------------------------------
